@@ -139,6 +139,18 @@ func subRand(seed uint64, salt uint64) *vh.Rand {
 	return vh.NewRand(vh.NewRand(vh.NewRand(seed).U64() ^ (salt * 0xD6E8FEB86659FD93)).U64())
 }
 
+// clientPanic: a call of the public API panicked on the caller's goroutine. Like a
+// panic on a goroutine of the library it is judged, not skipped (unless it is a
+// documented operator error, knownPanic).
+func (c *cluster) clientPanic(p interface{}) {
+	msg := fmt.Sprint(p)
+	if knownPanic.MatchString(msg) {
+		c.note("client_panic_known")
+		return
+	}
+	c.violation("a call of the NodeHost API panicked on the client's goroutine: %s", msg)
+}
+
 func (c *cluster) note(k string) {
 	c.noteMu.Lock()
 	c.notes[k]++
@@ -709,11 +721,10 @@ func (c *cluster) clientLoop(id int, stop <-chan struct{}, wg *sync.WaitGroup) {
 		key := uint64(1 + r.Intn(c.cfg.keys))
 		timeout := time.Duration(100+r.Intn(300)) * time.Millisecond
 		func() {
-			// a NodeHost being closed under a client may panic inside the library
-			// (that is not the property checked here): count it, record nothing
+			// a NodeHost being closed under a client must not panic inside the library
 			defer func() {
 				if p := recover(); p != nil {
-					c.note("client_panic")
+					c.clientPanic(p)
 					cs = nil
 				}
 			}()
@@ -793,7 +804,7 @@ func (c *cluster) burstLoop(stop <-chan struct{}, wg *sync.WaitGroup) {
 				defer bw.Done()
 				defer func() {
 					if p := recover(); p != nil {
-						c.note("client_panic")
+						c.clientPanic(p)
 					}
 				}()
 				for k := 0; k < 8; k++ {
@@ -834,7 +845,7 @@ func (c *cluster) restartHost(i int, r *vh.Rand) {
 			defer bw.Done()
 			defer func() {
 				if p := recover(); p != nil {
-					c.note("client_panic")
+					c.clientPanic(p)
 				}
 			}()
 			if write {
@@ -1541,6 +1552,105 @@ func (c *cluster) leaderHostOr(d int) int {
 	return d
 }
 
+// compareBookkeeping: what dragonboat replicates besides the user state machine.
+// At an equal applied index the client session tables and the membership records of
+// all replicas have the same hash, and the membership every host reports through
+// the API (voters, non-voting, witnesses, removed, config change id) is the same.
+func (c *cluster) compareBookkeeping(members map[uint64]bool) {
+	type rh struct {
+		applied, sessions, membership uint64
+	}
+	var hs map[int]rh
+	for wait := 0; wait < 200; wait++ {
+		hs = map[int]rh{}
+		same := true
+		var a0 uint64
+		for i := range c.hosts {
+			nh := c.get(i)
+			if nh == nil || !members[uint64(i+1)] {
+				continue
+			}
+			a, se, me, ok := dragonboat.VerifC01ReplicaHashes(nh, shardID)
+			if !ok {
+				continue
+			}
+			hs[i] = rh{a, se, me}
+			if a0 == 0 {
+				a0 = a
+			}
+			if a != a0 {
+				same = false
+			}
+		}
+		if same {
+			break
+		}
+		time.Sleep(10 * time.Millisecond)
+	}
+	idx := make([]int, 0, len(hs))
+	for i := range hs {
+		idx = append(idx, i)
+	}
+	sort.Ints(idx)
+	compared := 0
+	for x := 0; x < len(idx); x++ {
+		for y := x + 1; y < len(idx); y++ {
+			a, b := hs[idx[x]], hs[idx[y]]
+			if a.applied != b.applied {
+				continue
+			}
+			compared++
+			if a.sessions != b.sessions {
+				c.violation("replicas %d and %d have applied up to index %d and their client session tables differ (hash %x / %x)", idx[x]+1, idx[y]+1, a.applied, a.sessions, b.sessions)
+			}
+			if a.membership != b.membership {
+				c.violation("replicas %d and %d have applied up to index %d and their membership records differ (hash %x / %x)", idx[x]+1, idx[y]+1, a.applied, a.membership, b.membership)
+			}
+		}
+	}
+	c.noteMu.Lock()
+	c.notes["bookkeeping_pairs_compared"] = compared
+	c.noteMu.Unlock()
+	// the membership as the API reports it on every host
+	show := func(m *dragonboat.Membership) string {
+		f := func(x map[uint64]string) string {
+			var k []string
+			for id, a := range x {
+				k = append(k, fmt.Sprintf("%d=%s", id, a))
+			}
+			sort.Strings(k)
+			return strings.Join(k, ",")
+		}
+		var rm []int
+		for id := range m.Removed {
+			rm = append(rm, int(id))
+		}
+		sort.Ints(rm)
+		return fmt.Sprintf("ccid=%d voters[%s] nonvoting[%s] witnesses[%s] removed%v", m.ConfigChangeID, f(m.Nodes), f(m.NonVotings), f(m.Witnesses), rm)
+	}
+	first, firstHost := "", 0
+	for _, i := range idx {
+		nh := c.get(i)
+		if nh == nil {
+			continue
+		}
+		var m *dragonboat.Membership
+		for try := 0; try < 5 && m == nil; try++ {
+			ctx, cancel := context.WithTimeout(context.Background(), time.Second)
+			m, _ = nh.SyncGetShardMembership(ctx, shardID)
+			cancel()
+		}
+		if m == nil {
+			continue
+		}
+		if s := show(m); first == "" {
+			first, firstHost = s, i+1
+		} else if s != first {
+			c.violation("hosts %d and %d report different memberships: %s / %s", firstHost, i+1, first, s)
+		}
+	}
+}
+
 type histResult struct {
 	ops     []*opRec
 	log     []applyRec // one per index, index order
@@ -1691,6 +1801,9 @@ func runHistory(cfg histCfg) (*histResult, error) {
 			break
 		}
 		time.Sleep(10 * time.Millisecond)
+	}
+	if settled && converged {
+		c.compareBookkeeping(members)
 	}
 	if settled && !converged {
 		c.violation("the replicas of the final membership did not reach the same number of applied updates within 5 s after every one of them served a linearizable read: %v", counts)
